@@ -1,6 +1,6 @@
 CONSTANTS
   NS = 2
-  MaxNonce = 3
+  MaxNonce = 2
   MaxEpoch = 1
   NK = 2
   EL = 2
@@ -12,10 +12,11 @@ CONSTANTS
   GasCap = 2
   InitEpochs = {0}
   InitPers = {0, 3}
-  ForeignMax = 2
+  ForeignMax = 1
   ExportOn = TRUE
   MaxOps = 5
   SampleMod = 60
+  ImportantMod = 8
 INIT MInit
 NEXT MNext
 VIEW view
